@@ -3,7 +3,7 @@
 not_applicable with the reason given in NOT_CLAIMED."""
 import importlib, json, os, sys
 HOME = os.path.dirname(os.path.dirname(os.path.abspath(__file__)))
-sys.path.insert(0, HOME)
+sys.path.insert(0, HOME); sys.path.insert(1, os.path.join(HOME, '.deps'))
 NOT_CLAIMED = {}
 BASE = json.load(open('/root/.vp/BASELINE.json'))['cmd'] if os.path.exists('/root/.vp/BASELINE.json') else ''
 props = [json.loads(l)['id'] for l in open(os.path.join(HOME, 'properties.jsonl'))]
